@@ -1,0 +1,13 @@
+//go:build verif
+
+package pop3
+
+import "net"
+
+// VerifServeConn runs one POP3 session on conn and returns when the session ends
+// (verification hook; only compiled with the verif build tag).  It registers the
+// session with the WaitGroup exactly as serve() does before starting it.
+func (s *Server) VerifServeConn(id int, conn net.Conn) {
+	s.wg.Add(1)
+	s.startSession(id, conn)
+}
